@@ -34,6 +34,11 @@ static void Body(Tape& t, Outcome& o) {
         o.known("F16-refine-stranded-vertex", "topo:unreferenced-vert", r.msg);
         return;
       }
+      if (!r.ok && (r.sig == "topo:duplicate-edge" || r.sig == "topo:degenerate-tri") && (si.op == "Hull" || si.op == "HullPts")) {
+        // known finding F25 (quickhull on many exactly collinear / coplanar points)
+        o.known("F25-hull-duplicate-edge", "topo:duplicate-edge", r.msg);
+        return;
+      }
       if (!r.ok) {
         o.fail(r.sig, verif::fmt("after step %d (%s), value v%d: %s", s, si.op.c_str(), k, r.msg.c_str()));
         return;
